@@ -114,6 +114,28 @@ class Explorer(object):
             self.viol.append({"mechanism": "model-mismatch", "detail": "after %s: %s" % (fmt(path), ref.refuted)})
         return ok
 
+    def observe_one(self, store, ref, path, rng):
+        """ONE observer call on one pattern (observers must not influence later results; calling all of them after every step could hide state they leave behind)"""
+        p = rng.choice(self.wild)
+        which = rng.randrange(4)
+        if which == 0:
+            ok = ref.observe_find(p, store.find(p[0], p[1]))
+            what = "find%r" % (p,)
+        elif which == 1:
+            ok = ref.observe_contains(p, p in store)
+            what = "%r in store" % (p,)
+        elif which == 2:
+            ok = ref.observe_find_zeros(p, store.find_allow_zeros(p[0], p[1]))
+            what = "find_allow_zeros%r" % (p,)
+        else:
+            ok = ref.observe_len(len(store))
+            what = "len"
+        self.stats["observer_evaluations"] += 1
+        self.stats["isolated_observer_calls"] = self.stats.get("isolated_observer_calls", 0) + 1
+        if not ok:
+            self.viol.append({"mechanism": "model-mismatch", "detail": "after %s, then only %s: %s" % (fmt(path), what, ref.refuted)})
+        return ok
+
     def apply(self, store, ref, m, path):
         """returns False if the mutator is not applicable / a violation was recorded"""
         st = self.stats
@@ -252,6 +274,8 @@ def run_case(case):
     ref = refstore.Ref()
     path = []
     weights = [6 if m[0] == "put" else (5 if m[0] == "get" else (1 if m[0] == "clear" else 0.2)) for m in ex.muts]
+    # how often the full set of observers runs after a step: always / sometimes / only single observer calls in between
+    rate = [1.0, 0.3, 0.0][int(case["seed"].split(":")[-1]) % 3]
     for _ in range(case["len"]):
         m = rng.choices(ex.muts, weights)[0]
         path.append(m)
@@ -260,8 +284,13 @@ def run_case(case):
             if ex.viol:
                 break
             continue
-        if not ex.observe(store, ref, path):
+        if rate >= 1.0 or rng.random() < rate:
+            if not ex.observe(store, ref, path):
+                break
+        elif rng.random() < 0.5 and not ex.observe_one(store, ref, path, rng):
             break
+    if not ex.viol:
+        ex.observe(store, ref, path)
     stats = ex.stats
     sample = {"case": case, "dom": list(dom), "tail": fmt(path)} if case["seed"].endswith(":1") else None
     return {"sig": ("rand|%s" % case["seed"]) if stats["gets"] else None, "violations": ex.viol[:3], "stats": stats, "sample": sample}
